@@ -217,6 +217,14 @@ def install(X):
         p = args[0]
         return (Opaque("dirname"), Opaque("basename"))
 
+    @X.register("os.path.dirname")
+    def _(interp, args, kwargs):
+        return Opaque("dirname")
+
+    @X.register("os.path.basename")
+    def _(interp, args, kwargs):
+        return Opaque("basename")
+
     @X.register("os.path.exists")
     def _(interp, args, kwargs):
         return z3.Bool(fresh_name("exists"))
